@@ -747,3 +747,73 @@ func anyHasPrefix(ps []string, key string) bool {
 	}
 	return false
 }
+
+// ---- native sweep: every code point against every lone invalid byte.
+// The trie treats an invalid byte b as a private pseudo-rune.  Whatever number the code picks for it, a valid code point
+// with that number would be taken for the byte (and the byte for the code point).  The sweep asks the code itself: a trie
+// holding the 128 lone bytes 0x80..0xFF as patterns must match no string that is one valid code point.  1.1 million
+// Match calls, no model involved; every hit becomes ordinary cases (byte pattern vs rune text and the reverse), so that
+// the failure, if there is one, is judged by the specification and reported with the input.  On a correct tree: 0 hits.
+var trieSweep struct {
+	once  sync.Once
+	pairs [][2]string // {lone byte, code point}
+	note  string
+}
+
+func trieMatchSafe(t *algz.Trie, s string) (hit bool) {
+	defer func() {
+		if recover() != nil {
+			hit = true
+		}
+	}()
+	return t.Match(s)
+}
+
+func trieCollisionHits() ([][2]string, string) {
+	trieSweep.once.Do(func() {
+		all := &algz.Trie{}
+		for b := 0x80; b <= 0xff; b++ {
+			all.Insert(string([]byte{byte(b)}))
+		}
+		all.BuildFailureLinks()
+		var hits []rune
+		n := 0
+		for r := rune(0x80); r <= 0x10FFFF && len(hits) < 48; r++ {
+			if r >= 0xD800 && r <= 0xDFFF {
+				continue
+			}
+			n++
+			if trieMatchSafe(all, string(r)) {
+				hits = append(hits, r)
+			}
+		}
+		for _, r := range hits {
+			for b := 0x80; b <= 0xff; b++ {
+				one := &algz.Trie{}
+				one.Insert(string([]byte{byte(b)}))
+				one.BuildFailureLinks()
+				if trieMatchSafe(one, string(r)) {
+					trieSweep.pairs = append(trieSweep.pairs, [2]string{string([]byte{byte(b)}), string(r)})
+				}
+			}
+		}
+		trieSweep.note = fmt.Sprintf("native sweep: the 128 lone bytes 0x80..0xFF as patterns against each of %d valid code points as text: %d code points matched (each becomes cases in both directions)", n, len(hits))
+	})
+	return trieSweep.pairs, trieSweep.note
+}
+
+// the cases made from the hits of the sweep
+func trieCollisionCases() []*trieCase {
+	pairs, _ := trieCollisionHits()
+	var out []*trieCase
+	for _, p := range pairs {
+		b, r := p[0], p[1]
+		out = append(out,
+			&trieCase{ops: opsOf([]string{b}), text: []byte(r)},
+			&trieCase{ops: opsOf([]string{r}), text: []byte(b)},
+			&trieCase{ops: opsOf([]string{b}), text: []byte("x" + r + "y")},
+			&trieCase{ops: opsOf([]string{r}), text: []byte("ab" + b + "cd")},
+			&trieCase{ops: opsOf([]string{b, r}), text: []byte(r + b)})
+	}
+	return out
+}
